@@ -80,6 +80,10 @@ func main() {
 	if len(p.Ecos) == 0 {
 		fatalf("no ecosystems discovered")
 	}
+	if os.Getenv("GVCHECK_LEAVES") != "" {
+		dumpLeaves(p)
+		return
+	}
 	for i, fn := range rules {
 		func() {
 			defer func() {
